@@ -189,6 +189,7 @@ pub fn main(args: &[String]) -> i32 {
         },
         Some("prop") => prop_cmd(&args[1..]),
         Some("replay") => replay_cmd(&args[1..]),
+        Some("selftest") => selftest_cmd(&args[1..]),
         Some("count") => {
             let prop = arg(args, "--prop").unwrap_or("C01");
             let tier = if arg(args, "--tier") == Some("thorough") { Tier::Thorough } else { Tier::Quick };
@@ -420,5 +421,65 @@ fn replay_cmd(args: &[String]) -> i32 {
     } else {
         println!("no violation on this schedule");
         0
+    }
+}
+
+/// Engine self-test: on small systems the stateful exploration (exact state matching), the plain stateless
+/// exploration of every interleaving, and the canonicalising spin mode must produce the same outcome sets and
+/// the same violation classes; two runs of the same exploration must produce identical statistics.
+fn selftest_cmd(args: &[String]) -> i32 {
+    let (si, sn) = arg(args, "--shard").and_then(|s| s.split_once('/')).map(|(a, b)| (a.parse::<usize>().unwrap_or(0), b.parse::<usize>().unwrap_or(1))).unwrap_or((0, 1));
+    let list = configs::for_property("selftest", Tier::Quick);
+    let mut bad = 0;
+    let mut n = 0;
+    let mut stateless_done = 0;
+    for (i, (cfg, _)) in list.iter().enumerate() {
+        if i % sn != si {
+            continue;
+        }
+        n += 1;
+        let a = run_cfg(cfg, &RunOpts::default());
+        let a2 = run_cfg(cfg, &RunOpts::default());
+        if a.stats.executions != a2.stats.executions || a.stats.states != a2.stats.states || a.stats.transitions != a2.stats.transitions || a.outcomes != a2.outcomes {
+            println!("SELFTEST-FAIL nondeterministic exploration of {}", cfg.cli());
+            bad += 1;
+        }
+        let f = run_cfg(cfg, &RunOpts { spin: SpinMode::Fast, ..RunOpts::default() });
+        let keys = |r: &CfgResult| r.viols.keys().cloned().collect::<Vec<_>>();
+        if f.outcomes != a.outcomes || keys(&f) != keys(&a) {
+            println!("SELFTEST-FAIL spin modes disagree on {}: {} vs {} outcomes", cfg.cli(), a.outcomes.len(), f.outcomes.len());
+            bad += 1;
+        }
+        // stateless exploration of every interleaving is only affordable for the small systems
+        let mut ex = Explorer::new({
+            let mut c = engine_config(cfg, &RunOpts { cache: false, ..RunOpts::default() });
+            c.max_executions = 400_000;
+            c
+        });
+        let mut outcomes = BTreeSet::new();
+        let mut vk: BTreeSet<(String, String)> = BTreeSet::new();
+        let setup = || make_system(cfg);
+        ex.explore(&setup, &mut |r| {
+            if let Some(s) = &r.outcome_str {
+                outcomes.insert(h64(s));
+            }
+            for v in &r.violations {
+                vk.insert((v.prop.clone(), v.class.clone()));
+            }
+        });
+        if !ex.stats.capped {
+            stateless_done += 1;
+            let ak: BTreeSet<(String, String)> = a.viols.keys().cloned().collect();
+            if outcomes != a.outcomes || vk != ak {
+                println!("SELFTEST-FAIL stateful and stateless exploration disagree on {}: {} vs {} outcomes, violations {:?} vs {:?}", cfg.cli(), a.outcomes.len(), outcomes.len(), ak, vk);
+                bad += 1;
+            }
+        }
+    }
+    println!("selftest shard {si}/{sn}: {n} systems, {stateless_done} also explored without state matching, {bad} disagreements");
+    if bad == 0 {
+        0
+    } else {
+        2
     }
 }
